@@ -33,6 +33,9 @@ type Version struct {
 	build      string
 	pseudo     *pseudoVersion
 	original   string
+	// semverPre is the pre-release part that decides precedence: prerelease, or for a
+	// pseudo-version its SemVer spelling (e.g. "0.20170915032832-14c0d48ead0c")
+	semverPre string
 }
 
 // pseudoVersion represents a Go pseudo-version
@@ -58,12 +61,14 @@ func (e *Ecosystem) NewVersion(version string) (*Version, error) {
 
 	// Try to parse as pseudo-version first
 	if pseudo, err := parsePseudoVersion(version); err == nil {
+		_, semverPre, _ := strings.Cut(version, "-")
 		return &Version{
-			major:    pseudo.major,
-			minor:    pseudo.minor,
-			patch:    pseudo.patch,
-			pseudo:   &pseudo.pseudoVersion,
-			original: original,
+			major:     pseudo.major,
+			minor:     pseudo.minor,
+			patch:     pseudo.patch,
+			pseudo:    &pseudo.pseudoVersion,
+			original:  original,
+			semverPre: semverPre,
 		}, nil
 	}
 
@@ -95,6 +100,7 @@ func (e *Ecosystem) NewVersion(version string) (*Version, error) {
 		prerelease: matches[4],
 		build:      matches[5],
 		original:   original,
+		semverPre:  matches[4],
 	}, nil
 }
 
@@ -192,27 +198,8 @@ func (v *Version) Compare(other *Version) int {
 		return compareInt(v.patch, other.patch)
 	}
 
-	// Handle pseudo-version comparison
-	if v.pseudo != nil && other.pseudo != nil {
-		return v.pseudo.timestamp.Compare(other.pseudo.timestamp)
-	}
-	if v.pseudo != nil && other.pseudo == nil {
-		// Pseudo-versions are pre-release, so they come before releases
-		if other.prerelease == "" {
-			return -1
-		}
-		// Compare with prerelease
-		return comparePrerelease("pseudo", other.prerelease)
-	}
-	if v.pseudo == nil && other.pseudo != nil {
-		if v.prerelease == "" {
-			return 1
-		}
-		return comparePrerelease(v.prerelease, "pseudo")
-	}
-
-	// Compare prerelease according to semver rules
-	return comparePrerelease(v.prerelease, other.prerelease)
+	// A pseudo-version is a pre-release in its SemVer spelling and orders as one
+	return comparePrerelease(v.semverPre, other.semverPre)
 }
 
 // String returns the string representation of the version
@@ -244,23 +231,35 @@ func comparePrerelease(a, b string) int {
 		return -1
 	}
 
-	// Special handling for pseudo-versions
-	if a == "pseudo" && b != "pseudo" {
-		return -1
-	}
-	if a != "pseudo" && b == "pseudo" {
-		return 1
-	}
-	if a == "pseudo" && b == "pseudo" {
-		return 0
+	// Identifier by identifier (SemVer 2.0.0 section 11.4)
+	aParts := strings.Split(a, ".")
+	bParts := strings.Split(b, ".")
+	for i := 0; i < len(aParts) && i < len(bParts); i++ {
+		aNum, aIsNum := parseNum(aParts[i])
+		bNum, bIsNum := parseNum(bParts[i])
+		switch {
+		case aIsNum && bIsNum:
+			if aNum != bNum {
+				return compareInt(aNum, bNum)
+			}
+		case aIsNum:
+			return -1 // numeric identifiers have lower precedence
+		case bIsNum:
+			return 1
+		case aParts[i] != bParts[i]:
+			return strings.Compare(aParts[i], bParts[i])
+		}
 	}
 
-	// Lexicographic comparison for prereleases
-	if a < b {
-		return -1
+	// A larger set of identifiers has higher precedence
+	return compareInt(len(aParts), len(bParts))
+}
+
+// parseNum returns the value of an all-digit identifier
+func parseNum(s string) (int, bool) {
+	if strings.TrimLeft(s, "0123456789") != "" {
+		return 0, false
 	}
-	if a > b {
-		return 1
-	}
-	return 0
+	n, err := strconv.Atoi(s)
+	return n, err == nil
 }
